@@ -50,6 +50,7 @@ type HV struct {
 
 // AuthzCall is one call of the authorizer made by the impersonation filter.
 type AuthzCall struct {
+	Grp  string `json:"grp"`
 	Res  string `json:"res"`
 	Sub  string `json:"sub"`
 	Ns   string `json:"ns"`
@@ -105,11 +106,35 @@ func (u *upstream) take() [][]HV {
 	return r
 }
 
+// Policy is the scripted authorizer of one case, keyed — like RBAC — by the full attributes of the record it is asked
+// about (verb impersonate; API group, resource, subresource, NAMESPACE, name): the first rule whose attributes equal the
+// record decides, else the default.
+type PolicyRule struct {
+	On AuthzCall
+	D  string // allow | deny | noopinion | error
+}
+type Policy struct {
+	Default string // "" = allow
+	Rules   []PolicyRule
+}
+
+func (p Policy) decide(c AuthzCall) string {
+	for _, r := range p.Rules {
+		if r.On == c {
+			return r.D
+		}
+	}
+	if p.Default == "" {
+		return "allow"
+	}
+	return p.Default
+}
+
 // script is what the stubs answer for the case being run (one case at a time).
 type script struct {
 	mu    sync.Mutex
 	user  *user.DefaultInfo
-	deny  map[AuthzCall]string // derived request -> "deny" | "noopinion" | "error"; anything else is allowed
+	policy Policy
 	calls []AuthzCall
 	seen  []string // user name seen by the authorizer (requestor), for the tap
 }
@@ -184,7 +209,7 @@ func newGateway() (*gateway, error) {
 		return &authenticator.Response{User: g.sc.user}, true, nil
 	})
 	cfg.Authorization.Authorizer = authorizer.AuthorizerFunc(func(a authorizer.Attributes) (authorizer.Decision, string, error) {
-		call := AuthzCall{Res: a.GetResource(), Sub: a.GetSubresource(), Ns: a.GetNamespace(), Name: a.GetName()}
+		call := AuthzCall{Grp: a.GetAPIGroup(), Res: a.GetResource(), Sub: a.GetSubresource(), Ns: a.GetNamespace(), Name: a.GetName()}
 		g.sc.mu.Lock()
 		defer g.sc.mu.Unlock()
 		g.sc.calls = append(g.sc.calls, call)
@@ -194,7 +219,7 @@ func newGateway() (*gateway, error) {
 		if a.GetVerb() != "impersonate" || !a.IsResourceRequest() {
 			return authorizer.DecisionDeny, "not an impersonation check", nil
 		}
-		switch g.sc.deny[call] {
+		switch g.sc.policy.decide(call) {
 		case "deny":
 			return authorizer.DecisionDeny, "scripted deny", nil
 		case "noopinion":
@@ -242,9 +267,9 @@ type Observed struct {
 }
 
 // send writes one raw request (header lines exactly as given) and returns what happened.
-func (g *gateway) send(u *user.DefaultInfo, deny map[AuthzCall]string, lines []string, upgrade bool) Observed {
+func (g *gateway) send(u *user.DefaultInfo, policy Policy, lines []string, upgrade bool) Observed {
 	g.sc.mu.Lock()
-	g.sc.user, g.sc.deny, g.sc.calls, g.sc.seen = u, deny, nil, nil
+	g.sc.user, g.sc.policy, g.sc.calls, g.sc.seen = u, policy, nil, nil
 	g.sc.mu.Unlock()
 	g.up.reset()
 	g.caseSeq++
